@@ -6,7 +6,8 @@ VERIF = '1.2.840.10008.1.1'
 BOUND_S = 15 + 10 + 1 + 2.0     # AE receive timeout + ARTIM + kill grace + margin (virtual seconds)
 
 SCENARIOS = ['echo-release', 'client-abort', 'silent-requestor', 'accepted-then-silent', 'no-reply-to-rq', 'no-reply-to-release',
-             'peer-never-closes-after-release', 'peer-never-closes-after-reject', 'peer-disconnects-mid-pdu', 'peer-abort-and-close']
+             'peer-never-closes-after-release', 'peer-never-closes-after-reject', 'peer-disconnects-mid-pdu', 'peer-abort-and-close',
+             'never-closes-while-another-association-runs']
 
 
 def cases(tier):
@@ -73,6 +74,29 @@ def make(case):
                 if name == 'client-abort':
                     asce.abort(2)
             sched.spawn(lib_client(body), 'client')
+        elif name == 'never-closes-while-another-association-runs':
+            # association A is released by its peer, which then never closes; meanwhile association B is set up and
+            # released normally on the same entity: A must still be cleaned up by its own ARTIM
+            net.listen(('srv', 104), e3.serve_ae(ae))
+            hold = e3.CoopEvent()
+            go_b = e3.CoopEvent()
+
+            def script_a(end):
+                end.sendall(e2.std_rq())
+                results['peer_got'] = e2.summarize_wire(read_pdu(end) or b'')
+                end.sendall(e2.std_release())
+                results['peer_got2'] = e2.summarize_wire(read_pdu(end) or b'')
+                go_b.set()
+                hold.wait(60)
+            sched.spawn(raw_client(script_a), 'peer')
+
+            def body(asce):
+                results['echo'] = int(asce.get_scu(VERIF)(1))
+
+            def client_b():
+                go_b.wait(60)
+                lib_client(body)()
+            sched.spawn(client_b, 'client')
         elif name in ('silent-requestor', 'accepted-then-silent', 'peer-never-closes-after-release', 'peer-never-closes-after-reject',
                       'peer-disconnects-mid-pdu', 'peer-abort-and-close'):
             net.listen(('srv', 104), e3.serve_ae(ae))
@@ -172,7 +196,8 @@ def run_case(case):
             first[0] = list(out.choices)
         viol.extend(v)
     # the scripted peers block for 60 virtual seconds at most: horizon must exceed that
-    stats = e3.explore(sc, case['bound'], on, max_exec=8000)
+    # with two associations the free (non-preempting) switches alone explode: bound all deviations there
+    stats = e3.explore(sc, case['bound'], on, max_exec=8000, count_all=(case['scenario'] == 'never-closes-while-another-association-runs'))
     dedup = {}
     for s, m in viol:
         dedup.setdefault(s, m)
